@@ -2,32 +2,38 @@
 # seedconfirm.sh <worktree> <k> <seed-id> <property>
 # Confirms a sub-agent's mutant in its scratch worktree (suite passes with the
 # change, demo fails with it and passes without), then files it under /verif/seeded/<seed-id>/.
+# Nothing from the sub-agent's files is executed as shell text: the go test command is built
+# here from a validated test-function name and a validated package directory.
 set -u
 WT=$1; K=$2; ID=$3; PROP=$4
 export GOFLAGS=-mod=mod GOPROXY=off GOSUMDB=off GOTOOLCHAIN=local
 S=$WT/SEEDS/$K
-cd $WT || exit 2
+cd "$WT" || exit 2
 git checkout -q -- . ; git clean -fdq -e SEEDS
-place=$(head -5 $S/demo_test.go | grep -o '[A-Za-z0-9_/.]*_test\.go' | grep -v '^demo_test.go$' | head -1)
-[ -z "$place" ] && place=seed_demo_${K}_test.go
-runcmd=$(head -8 $S/demo_test.go | grep -o 'go test[^`"]*' | head -1)
-[ -z "$runcmd" ] && runcmd="go test -vet=off -count=1 -run TestSeedDemo$K ."
+# placement: a *_test.go path mentioned in the first lines of the demo (validated), default repo root
+place=$(head -8 "$S/demo_test.go" | grep -o '[A-Za-z0-9_/.-]*_test\.go' | grep -v '^demo_test.go$' | head -1)
+if ! [[ "$place" =~ ^[A-Za-z0-9_./-]+_test\.go$ ]] || [[ "$place" == *..* ]] || [[ "$place" == /* ]]; then place=seed_demo_${K}_test.go; fi
+pkgdir=$(dirname "$place")
+# test function names defined in the demo file (validated identifiers only)
+tests=$(grep -o '^func Test[A-Za-z0-9_]*' "$S/demo_test.go" | sed 's/^func //' | grep -E '^Test[A-Za-z0-9_]+$' | paste -sd'|')
+if [ -z "$tests" ]; then echo "$ID: no test function found"; exit 1; fi
+race=""
+if head -8 "$S/demo_test.go" | grep -q -- '-race'; then race="-race"; export CGO_ENABLED=1; fi
+rundemo() { go test $race -vet=off -count=1 -run "^($tests)\$" "./$pkgdir"; }
 pkgs=$(go list ./... | grep -v /SEEDS)
-# clean tree: demo passes
-mkdir -p $(dirname $place); cp $S/demo_test.go $place
-( eval "$runcmd" ) > /tmp/seedconf.$ID.clean 2>&1; clean_rc=$?
-# with patch
-git apply $S/patch.diff || { echo "$ID: patch does not apply"; exit 1; }
-( eval "$runcmd" ) > /tmp/seedconf.$ID.mut 2>&1; mut_rc=$?
-rm -f $place
+mkdir -p "$pkgdir"; cp "$S/demo_test.go" "$place"
+rundemo > /tmp/seedconf.$ID.clean 2>&1; clean_rc=$?
+git apply "$S/patch.diff" || { echo "$ID: patch does not apply"; rm -f "$place"; exit 1; }
+rundemo > /tmp/seedconf.$ID.mut 2>&1; mut_rc=$?
+rm -f "$place"
 go build ./... > /tmp/seedconf.$ID.build 2>&1; build_rc=$?
 go test -vet=off -count=1 $pkgs > /tmp/seedconf.$ID.suite 2>&1; suite_rc=$?
 git checkout -q -- . ; git clean -fdq -e SEEDS
-echo "$ID: demo-clean rc=$clean_rc demo-mutant rc=$mut_rc build rc=$build_rc suite rc=$suite_rc (place=$place cmd=$runcmd)"
+echo "$ID: demo-clean rc=$clean_rc demo-mutant rc=$mut_rc build rc=$build_rc suite rc=$suite_rc (place=$place tests=$tests $race)"
 if [ $clean_rc -eq 0 ] && [ $mut_rc -ne 0 ] && [ $build_rc -eq 0 ] && [ $suite_rc -eq 0 ]; then
   D=/verif/seeded/$ID; mkdir -p $D
-  cp $S/patch.diff $D/patch.diff; cp $S/demo_test.go $D/demo_test.go.txt; cp $S/notes.txt $D/notes.txt
-  python3 - "$D" "$ID" "$PROP" "$place" "$runcmd" <<'PY'
+  cp "$S/patch.diff" $D/patch.diff; cp "$S/demo_test.go" $D/demo_test.go.txt; cp "$S/notes.txt" $D/notes.txt
+  python3 - "$D" "$ID" "$PROP" "$place" "go test $race -vet=off -count=1 -run '^($tests)\$' ./$pkgdir" <<'PY'
 import json,sys
 d,i,p,place,cmd=sys.argv[1:6]
 notes=open(d+'/notes.txt').read()
